@@ -88,6 +88,13 @@ CLAIMED = {
                      "with any number of spurious re-polls, yields Ready only after the source terminated, with the source's error or all its items in order; a parked poller always has a token pending "
                      "once the source has finished and reaches Ready within three of its own steps. Tie: the real to_vec is awaited by a minimal parking executor under thousands of controlled schedules; "
                      "result, termination and poll count must lie within the outcomes of the extracted model explored exhaustively."),
+    "C09": dict(engine="coq-conc", design="DESIGN.md 6 C09",
+                technique="machine-checked proof in Coq (invariant of the composition posting observer + C08 queue transition system + task body, for every interleaving of emitter, worker and unsubscriber; completeness at quiescence) + correspondence under a deterministic scheduling runtime (script oracle, thread affinity and mutual exclusion on every observed schedule; implementation log set within the model's exhaustively explored log set)",
+                text="Theorems C09_observe_on_prefix (at every moment the subscriber has received events 0..m-1 of the source in order, each once; tasks run one at a time on the worker; posted = started ++ discarded ++ queued), "
+                     "C09_observe_on_complete (without unsubscribe, at quiescence every event has been delivered, terminal last: the abort only follows the delivered terminal), C09_nothing_after_close / C09_unsubscribe_closes "
+                     "(nothing is delivered once unsubscribe has run). Partial: subscribe_on, stacking and positions inside a pipeline are decided by the oracle on the implementation (the theorem covers one observe_on stage); thread identity is read off the runtime. "
+                     "Tie: observe_on at every position of short pipelines and stacked twice over a hot source fed by an emitting thread, subscribe_on likewise over cold sources, with and without a concurrent unsubscribe, "
+                     "one Observable value subscribed twice (concurrently / again after the first subscription ended), DFS / random / PCT schedules, spurious wake-ups."),
     "C11": dict(engine="coq-conc", design="DESIGN.md 6 C11",
                 technique="machine-checked proof in Coq (invariants of four transition systems at critical-section granularity - live-input set of merge/flat_map, zip queues, amb winner, take slots - for any number of input threads, any scripts, any interleaving; termination at quiescence) + correspondence under a deterministic scheduling runtime (script-based oracle on every observed schedule; implementation log set within the models' exhaustively explored log sets)",
                 text="Theorems C11_merge_conserves / C11_merge_terminates (merge, flat_map: each input's items a prefix of its script in order, none twice; at most one complete, last, after every started input delivered everything; at quiescence the complete HAS been issued), "
